@@ -161,9 +161,9 @@ ASSUMPTIONS = ['received length <= capacity of the receive buffer: the hypothesi
 TRUSTED = [t for m in PARTS for t in m.TRUSTED] + [
     'dispatch inventory (every packet type the receive paths switch on): Art-Net HandlePacket cases Poll, PollReply, Dmx, '
     'TodRequest, TodData, TodControl, Rdm, IpProgram (size/version check then ignored), Sync/RdmSub/TimeCode/default (ignored; '
-    'OpAddress/OpInput are not cases of the switch): all in the proved model, EXCEPT the ArtRdm RESPONSE path for an input port '
-    'with a pending RDM request (HandleRDMResponse / RDMReply::FromFrame): neither modelled nor driven by the harness (no request '
-    'is ever pending).  E1.31: root vectors E131 / E131_REV2 proved; RPT(E1.33) / LLRP + RDM inflators proved but added to the root '
+    'OpAddress/OpInput are not cases of the switch): all in the proved model, including the ArtRdm RESPONSE path for an input port '
+    'with a pending RDM request (HandleRDMResponse / RDMReply::FromFrame / RDMResponse::InflateFromData; the harness re-queues the '
+    'request from the completion callback; an RDM timeout and ACK_OVERFLOW continuation are not driven).  E1.31: root vectors E131 / E131_REV2 proved; RPT(E1.33) / LLRP + RDM inflators proved but added to the root '
     'by the harness only (olad does not register them); framing vectors DATA and DISCOVERY proved, anything else (incl. SYNC) is '
     'not handled by the code; DMP vector SET_PROPERTY proved.  ShowNet: COMPRESSED_DMX modelled as-is, DMX_PACKET (0x202f) ignored '
     'by the code.  SandNet: DMX, COMPRESSED_DMX proved, ADVERTISEMENT/default ignored by the code.  ESP Net: POLL, REPLY, DMX '
